@@ -32,7 +32,16 @@ PROP = dict(
           "the class distribution. Level A (TestVerifC13LogModel): "
           "4-40 generated log operations incl. reopen against a map model; "
           "non-trivial = >=1 reopen and >=1 checkpoint or swap with contracts "
-          "still stored."),
+          "still stored. Level C (TestVerifC13Finalize): the last stage, "
+          "ChainArbitrator.ResolveContract: 1-3 pending-close channels (close type, "
+          "channel type, logged resolutions generated) whose arbitrator logs say "
+          "StateFullyResolved are finalised in a generated order by a real "
+          "ChainArbitrator on a real channeldb; the run is repeated with the node "
+          "stopped after the k-th durable write for every k; a channel that is still "
+          "pending close must still have its recorded stage (state, resolutions, "
+          "confirmed commit set), and a second ChainArbitrator on the same database "
+          "must end with no pending channel and every close summary intact, once. "
+          "One evaluation = one (channels, order) case with all its stop points."),
     level_text="fault_enumeration",
     assumptions=[
         "the arbitrator is not Start()ed: the harness goroutine plays channelAttendant (getStartState + progressStateMachineAfterRestart, handle*CloseEvent, advanceState on each resolutionSignal, launchResolvers per block), so schedules are deterministic",
@@ -45,7 +54,7 @@ PROP = dict(
         "NOT driven: exit-hop invoice settlement (every received HTLC is a forward), mempool preimage detection, re-orgs (neither the arbitrator nor the resolvers document a behaviour for them), the BreachArbitrator (stubbed completion signal; its taproot tap tweaks live in its own retribution store), lease channels, blocks mined while the process is down",
         "sweeps confirm when the harness pumps them; the sweeper, notifier, switch, witness beacon are deterministic stubs whose state survives restarts like the chain / other subsystems would",
         "kvdb.Batch is routed to a plain Update (bbolt's 10ms batch timer removed); same atomicity",
-        "outcome sets exclude the commitment transaction itself; NotifyChannelResolved stands for MarkChannelResolved + WipeHistory of ChainArbitrator",
+        "outcome sets exclude the commitment transaction itself; in levels A/B NotifyChannelResolved stands for MarkChannelResolved + WipeHistory of ChainArbitrator; level C runs those two writes for real (ChainArbitrator.ResolveContract called synchronously where resolveContracts would call it; the chain arbitrator is not Start()ed, its pending-close arbitrators are loaded with loadPendingCloseChannels)",
     ],
     jobs=dict(
         quick=[
@@ -55,6 +64,7 @@ PROP = dict(
             job("contractcourt", "^TestVerifC13Repro", ["TestVerifC13ReproRestartInContractClosed",
                 "TestVerifC13ReproResolvedCheckpoint", "TestVerifC13ReproContestOwnSweepPanic",
                 "TestVerifC13ReproTaprootPreimageLost"], 1, shards=1, v=True),
+            job("contractcourt", "^TestVerifC13Finalize$", ["TestVerifC13Finalize"], 120, shards=2),
         ],
         thorough=[
             job("contractcourt", "^TestVerifC13LogModel$", ["TestVerifC13LogModel"], 4000, shards=12,
@@ -64,6 +74,7 @@ PROP = dict(
             job("contractcourt", "^TestVerifC13Repro", ["TestVerifC13ReproRestartInContractClosed",
                 "TestVerifC13ReproResolvedCheckpoint", "TestVerifC13ReproContestOwnSweepPanic",
                 "TestVerifC13ReproTaprootPreimageLost"], 1, shards=1, v=True),
+            job("contractcourt", "^TestVerifC13Finalize$", ["TestVerifC13Finalize"], 1500, shards=4, timeout=900),
         ],
     ),
     also=["C12"],
